@@ -1,0 +1,12 @@
+//go:build verif
+
+package helpers
+
+// Contracts for the helper map (C14 lock discipline), checked by /verif/bin/plushvc. Comment-only.
+
+//@ guarded_by HelperMap.helpers by HelperMap.moot
+
+//@ func (h *HelperMap) Add
+//@ requires h.moot != nil
+//@ ensures put: h.helpers != nil && has(h.helpers, key) && h.helpers[key] == helper
+//@ assigns h.helpers, contents(h.helpers), fresh
